@@ -20,7 +20,7 @@ from harness import core, tlc
 from harness.tlaparse import iter_dump_states
 
 # Coded deviations that spec/Gophermap.tla follows; delete a name when /repo gets the fix:.
-QUIRKS = ["FileMapBase", "NonGopherPort70"]
+QUIRKS = []
 if os.environ.get("VERIF_C09_QUIRKS") is not None:      # development: try the model without a quirk
     QUIRKS = [q for q in os.environ["VERIF_C09_QUIRKS"].split(",") if q]
 
@@ -154,9 +154,9 @@ def lex_http(text):
             return None
         name = html.unescape(m.group(2))
         if m.group(3) is not None:
-            rows.append(_target("search", name, m.group(3)))
+            rows.append(_target("search", name, html.unescape(m.group(3))))
         elif m.group(1) is not None:
-            rows.append(_target("link", name, m.group(1)))
+            rows.append(_target("link", name, html.unescape(m.group(1))))
         else:
             rows.append(_row("info", "i", name, "none"))
     return rows
@@ -186,12 +186,12 @@ def lex_wap(text):
             m = _W_LINK.match(s, pos)
             if not m:
                 return None
-            rows.append(_target("link", html.unescape(m.group(3)), m.group(1) or m.group(2), WAPTOP))
+            rows.append(_target("link", html.unescape(m.group(3)), html.unescape(m.group(1) or m.group(2)), WAPTOP))
         elif after.startswith('  <input name="sr'):
             m = _W_SEARCH.match(s, pos)
             if not m:
                 return None
-            rows.append(_target("search", html.unescape(m.group(1)), m.group(2), WAPTOP))
+            rows.append(_target("search", html.unescape(m.group(1)), html.unescape(m.group(2)), WAPTOP))
         else:
             m = _W_INFO.match(s, pos)
             rows.append(_row("info", "i", html.unescape(m.group(1)), "none"))
